@@ -14,12 +14,17 @@
 //	X<k>   k times (aging tick, then the updater runs)          R   regenerate the local LSP unconditionally
 //	Q      one run of the LSP sender (sendLSPDUs)               A   one run of the PSNP sender (sendPSNPss)
 //
-// LSP ids 0..5: system id byte = id/2+1, pseudonode = id%2; the server's own system is byte 2, so
-// id 2 is the LSP the server originates and id 3 carries its system id with another pseudonode.
+//	B      one run of the CSNP sender (sendCSNPss)
+//
+// LSP ids are three digits <system><pseudonode><LSP number>: system id byte 1..3, pseudonode 0..1,
+// LSP number (fragment) 0..2. The server's own system is 2: 200 is the LSP the server originates,
+// 201 another fragment and 210 a pseudonode LSP carrying its system id. Entries of one SNP may be
+// spread over several LSP entries TLVs: groups are separated by '|'.
 // Observation per token:  <db>/c<own sequence counter>/p<update pending>[/<what was sent>]
 //
 //	db = <id>:<seq>:<lt>:S<interfaces with SRM>:N<interfaces with SSN> joined by ',' (sorted) or '-'
 //	sent (Q): <i>><id>.<seq> ...   sent (A): <i>><id>.<seq>+<id>.<seq>... one group per PSNP
+//	sent (B): <i>>[<lo>-<hi>]<id>.<seq>+... one group per CSNP
 package main
 
 import (
@@ -41,22 +46,28 @@ import (
 )
 
 const (
-	nIDs       = 6
-	ownID      = 2
+	ownID      = 200
 	ownSysByte = 2
 	maxSeq     = 0xFFFFFFFF
 )
 
+// the ids the generator draws from: siblings that differ only in the LSP number or only in the pseudonode id
+var idPool = []int{100, 101, 102, 110, 200, 201, 210, 300, 301, 311}
+
+func validID(id int) bool {
+	return id/100 >= 1 && id/100 <= 3 && (id/10)%10 <= 1 && id%10 <= 2
+}
+
 func lspID(id int) packet.LSPID {
-	return packet.LSPID{SystemID: types.SystemID{0, 0, 0, 0, 0, byte(id/2 + 1)}, PseudonodeID: uint8(id % 2)}
+	return packet.LSPID{SystemID: types.SystemID{0, 0, 0, 0, 0, byte(id / 100)}, PseudonodeID: uint8((id / 10) % 10), LSPNumber: uint8(id % 10)}
 }
 
 func idOf(l packet.LSPID) int {
-	if l.SystemID[0]|l.SystemID[1]|l.SystemID[2]|l.SystemID[3]|l.SystemID[4] != 0 || l.SystemID[5] < 1 ||
-		l.SystemID[5] > 3 || l.PseudonodeID > 1 || l.LSPNumber != 0 {
+	if l.SystemID[0]|l.SystemID[1]|l.SystemID[2]|l.SystemID[3]|l.SystemID[4] != 0 || l.SystemID[5] > 9 ||
+		l.PseudonodeID > 9 || l.LSPNumber > 9 {
 		return -1
 	}
-	return int(l.SystemID[5]-1)*2 + int(l.PseudonodeID)
+	return int(l.SystemID[5])*100 + int(l.PseudonodeID)*10 + int(l.LSPNumber)
 }
 
 type entry struct{ id, seq, lt int }
@@ -64,10 +75,11 @@ type entry struct{ id, seq, lt int }
 type event struct {
 	op      byte
 	ifi     int
-	e       entry   // L
-	lo, hi  int     // C: -1 = lowest, 99 = highest
-	entries []entry // C, P
-	k       int     // T, X
+	e       entry     // L
+	lo, hi  int       // C: -1 = lowest, 999 = highest
+	entries []entry   // C, P (all TLVs)
+	groups  [][]entry // C, P: the entries per LSP entries TLV
+	k       int       // T, X
 }
 
 func parseEntries(s string) ([]entry, error) {
@@ -83,12 +95,28 @@ func parseEntries(s string) ([]entry, error) {
 		id, e1 := strconv.Atoi(p[0])
 		seq, e2 := strconv.ParseUint(p[1], 10, 32)
 		lt, e3 := strconv.Atoi(p[2])
-		if e1 != nil || e2 != nil || e3 != nil || id < 0 || id >= nIDs || lt < 0 || lt > 65535 {
+		if e1 != nil || e2 != nil || e3 != nil || !validID(id) || lt < 0 || lt > 65535 {
 			return nil, fmt.Errorf("bad entry %q", t)
 		}
 		out = append(out, entry{id, int(seq), lt})
 	}
 	return out, nil
+}
+
+// entries spread over several TLVs: groups separated by '|'
+func parseGroups(s string) (all []entry, groups [][]entry, err error) {
+	if s == "-" {
+		return nil, nil, nil
+	}
+	for _, g := range strings.Split(s, "|") {
+		es, err := parseEntries(g)
+		if err != nil {
+			return nil, nil, err
+		}
+		groups = append(groups, es)
+		all = append(all, es...)
+	}
+	return all, groups, nil
 }
 
 func parse(in string) (cfg string, evs []event, err error) {
@@ -143,10 +171,10 @@ func parse(in string) (cfg string, evs []event, err error) {
 					return -1, nil
 				}
 				if s == "z" {
-					return 99, nil
+					return 999, nil
 				}
 				v, err := strconv.Atoi(s)
-				if err != nil || v < 0 || v >= nIDs {
+				if err != nil || !validID(v) {
 					return 0, fmt.Errorf("bad bound %q", s)
 				}
 				return v, nil
@@ -157,7 +185,7 @@ func parse(in string) (cfg string, evs []event, err error) {
 			if ev.hi, err = bound(r[1]); err != nil {
 				return "", nil, err
 			}
-			if ev.entries, err = parseEntries(p[2]); err != nil {
+			if ev.entries, ev.groups, err = parseGroups(p[2]); err != nil {
 				return "", nil, err
 			}
 		case 'P':
@@ -168,7 +196,7 @@ func parse(in string) (cfg string, evs []event, err error) {
 			if ev.ifi, err = ifOK(p[0]); err != nil {
 				return "", nil, err
 			}
-			if ev.entries, err = parseEntries(p[1]); err != nil {
+			if ev.entries, ev.groups, err = parseGroups(p[1]); err != nil {
 				return "", nil, err
 			}
 		case 'T', 'X':
@@ -176,7 +204,7 @@ func parse(in string) (cfg string, evs []event, err error) {
 			if err != nil || ev.k < 1 || ev.k > 5000 {
 				return "", nil, fmt.Errorf("bad token %q", t)
 			}
-		case 'S', 'R', 'Q', 'A':
+		case 'S', 'R', 'Q', 'A', 'B':
 			if body != "" {
 				return "", nil, fmt.Errorf("bad token %q", t)
 			}
@@ -200,7 +228,7 @@ func boundID(b int) packet.LSPID {
 	if b < 0 {
 		return packet.LSPID{}
 	}
-	if b >= nIDs {
+	if b >= 999 {
 		return packet.LSPID{SystemID: types.SystemID{0xff, 0xff, 0xff, 0xff, 0xff, 0xff}, PseudonodeID: 0xff, LSPNumber: 0xff}
 	}
 	return lspID(b)
@@ -339,14 +367,14 @@ func runCase(id, input string) (res isisx.Result) {
 			case 'C':
 				c := &packet.CSNP{SourceID: types.SourceID{SystemID: types.SystemID{9, 9, 9, 9, 9, byte(ev.ifi)}},
 					StartLSPID: boundID(ev.lo), EndLSPID: boundID(ev.hi)}
-				if len(ev.entries) > 0 {
-					c.TLVs = []packet.TLV{packet.NewLSPEntriesTLV(toLSPEntries(ev.entries))}
+				for _, g := range ev.groups {
+					c.TLVs = append(c.TLVs, packet.NewLSPEntriesTLV(toLSPEntries(g)))
 				}
 				s.VerifProcessCSNP(fmt.Sprintf("eth%d", ev.ifi), c)
 			case 'P':
 				p := &packet.PSNP{SourceID: types.SourceID{SystemID: types.SystemID{9, 9, 9, 9, 9, byte(ev.ifi)}}}
-				if len(ev.entries) > 0 {
-					p.TLVs = []packet.TLV{packet.NewLSPEntriesTLV(toLSPEntries(ev.entries))}
+				for _, g := range ev.groups {
+					p.TLVs = append(p.TLVs, packet.NewLSPEntriesTLV(toLSPEntries(g)))
 				}
 				s.VerifProcessPSNP(fmt.Sprintf("eth%d", ev.ifi), p)
 			case 'T':
@@ -366,6 +394,8 @@ func runCase(id, input string) (res isisx.Result) {
 				s.VerifSendLSPDUs()
 			case 'A':
 				s.VerifSendPSNPs()
+			case 'B':
+				s.VerifSendCSNPs()
 			}
 		})
 		if oc != "ok" {
@@ -375,7 +405,7 @@ func runCase(id, input string) (res isisx.Result) {
 			break
 		}
 		// transmissions
-		if ev.op == 'Q' || ev.op == 'A' {
+		if ev.op == 'Q' || ev.op == 'A' || ev.op == 'B' {
 			var sent []string
 			for _, h := range fac.All() {
 				i := strings.TrimPrefix(h.Name, "eth")
@@ -393,6 +423,43 @@ func runCase(id, input string) (res isisx.Result) {
 							seq := uint32(b[12])<<24 | uint32(b[13])<<16 | uint32(b[14])<<8 | uint32(b[15])
 							sent = append(sent, fmt.Sprintf("%s>%d.%d", i, idOf(l), seq))
 						}
+					case packet.L2_CSNP_TYPE:
+						if len(b) < 25 {
+							continue
+						}
+						var lo, hi packet.LSPID
+						copy(lo.SystemID[:], b[9:15])
+						lo.PseudonodeID, lo.LSPNumber = b[15], b[16]
+						copy(hi.SystemID[:], b[17:23])
+						hi.PseudonodeID, hi.LSPNumber = b[23], b[24]
+						rng := fmt.Sprintf("%d-%d", idOf(lo), idOf(hi))
+						if lo == (packet.LSPID{}) {
+							rng = "a-" + strings.SplitN(rng, "-", 2)[1]
+						}
+						if hi == boundID(999) {
+							rng = strings.SplitN(rng, "-", 2)[0] + "-z"
+						}
+						var es []string
+						t := b[25:]
+						for len(t) >= 2 {
+							typ, ln := t[0], int(t[1])
+							v := t[2:]
+							if ln > len(v) {
+								break
+							}
+							if typ == 9 {
+								for o := 0; o+16 <= ln; o += 16 {
+									var l packet.LSPID
+									copy(l.SystemID[:], v[o+2:o+8])
+									l.PseudonodeID, l.LSPNumber = v[o+8], v[o+9]
+									seq := uint32(v[o+10])<<24 | uint32(v[o+11])<<16 | uint32(v[o+12])<<8 | uint32(v[o+13])
+									es = append(es, fmt.Sprintf("%d.%d", idOf(l), seq))
+								}
+							}
+							t = v[ln:]
+						}
+						// entries stay in wire order: a CSNP lists its entries in ascending LSP id order
+						sent = append(sent, i+">["+rng+"]"+strings.Join(es, "+"))
 					case packet.L2_PSNP_TYPE:
 						var es []string
 						t := b[9:]
@@ -446,8 +513,22 @@ func runCase(id, input string) (res isisx.Result) {
 				fail("ssn-after-"+what, fmt.Sprintf("%s: LSP %d has SSN on {%s}, the update process requires {%s}", evname, lid, a.ssn, wantSSN))
 			}
 		}
+		allIDs := func(ms ...map[int]dbEntry) []int {
+			seen := map[int]bool{}
+			var out []int
+			for _, m := range ms {
+				for k := range m {
+					if !seen[k] {
+						seen[k] = true
+						out = append(out, k)
+					}
+				}
+			}
+			sort.Ints(out)
+			return out
+		}
 		unchangedExcept := func(ids map[int]bool) {
-			for lid := 0; lid < nIDs; lid++ {
+			for _, lid := range allIDs(before, after) {
 				if ids[lid] {
 					continue
 				}
@@ -537,6 +618,9 @@ func runCase(id, input string) (res isisx.Result) {
 			for _, e := range ev.entries {
 				snpEntry(what, cur, e, ev.ifi)
 			}
+			// 7.3.15.2 c): LSPs within the CSNP's range (an order on the FULL 8 byte LSP id: system id,
+			// pseudonode id, LSP number) that the CSNP does not mention (again by full id) get SRM
+			flagged := map[int]bool{}
 			if ev.op == 'C' {
 				for lid, c := range cur {
 					if c.seq == 0 || c.lt == 0 || lid < ev.lo || lid > ev.hi {
@@ -549,14 +633,24 @@ func runCase(id, input string) (res isisx.Result) {
 						}
 					}
 					if !listed && srmOK(ev.ifi, c.seq) {
+						if !has(c.srm, ev.ifi) {
+							flagged[lid] = true
+						}
 						c.srm = add(c.srm, ev.ifi)
 						cur[lid] = c
 					}
 				}
 			}
-			for lid := 0; lid < nIDs; lid++ {
+			for _, lid := range allIDs(cur, after) {
 				w, okw := cur[lid]
 				a, oka := after[lid]
+				if okw && oka && w.srm != a.srm && ev.op == 'C' {
+					if flagged[lid] && !has(a.srm, ev.ifi) {
+						fail("csnp-unmentioned-lsp-not-flagged", fmt.Sprintf("%s: LSP %d lies in the CSNP's range %d..%d, is not mentioned and did not get SRM on %d (has {%s})", evname, lid, ev.lo, ev.hi, ev.ifi, a.srm))
+					} else if has(a.srm, ev.ifi) && !has(w.srm, ev.ifi) && (lid < ev.lo || lid > ev.hi) {
+						fail("csnp-srm-outside-range", fmt.Sprintf("%s: LSP %d lies outside the CSNP's range %d..%d and got SRM on %d", evname, lid, ev.lo, ev.hi, ev.ifi))
+					}
+				}
 				if okw != oka {
 					fail("entry-set-after-"+what, fmt.Sprintf("%s: LSP %d present=%v, expected present=%v", evname, lid, oka, okw))
 				} else if okw && (w.seq != a.seq || w.lt != a.lt) {
@@ -581,10 +675,37 @@ func runCase(id, input string) (res isisx.Result) {
 					fail("lsp-kept-after-aging-out", fmt.Sprintf("%s: LSP %d had lifetime %d and is still present after %d ticks", evname, lid, b.lt, ev.k))
 				}
 			}
-		case 'Q', 'A':
+		case 'Q', 'A', 'B':
 			res.NT = true
 			var want []string
-			if ev.op == 'Q' {
+			if ev.op == 'B' {
+				// a complete SNP describes the whole database, on every circuit with an Up neighbor
+				var es []string
+				for lid, b := range before {
+					es = append(es, fmt.Sprintf("%d.%d", lid, b.seq))
+				}
+				sort.Strings(es)
+				for i := range cfg {
+					if cfg[i] == 'n' {
+						want = append(want, fmt.Sprintf("%d>[a-z]%s", i, strings.Join(es, "+")))
+					}
+				}
+				if fmtDB(before) != fmtDB(after) {
+					fail("csnp-sender-changed-database", evname+": sendCSNPss changed the database")
+				}
+				for _, g := range strings.Split(strings.TrimPrefix(extra, "/"), ";") {
+					if k := strings.Index(g, "]"); k >= 0 {
+						prev := -1
+						for _, e := range strings.Split(g[k+1:], "+") {
+							id, _ := strconv.Atoi(strings.SplitN(e, ".", 2)[0])
+							if e != "" && id <= prev {
+								fail("csnp-entries-not-ascending", fmt.Sprintf("%s: CSNP %s lists LSP %d after LSP %d", evname, g, id, prev))
+							}
+							prev = id
+						}
+					}
+				}
+			} else if ev.op == 'Q' {
 				for lid, b := range before {
 					for i := range cfg {
 						if has(b.srm, i) && cfg[i] != 'p' {
@@ -635,8 +756,12 @@ func runCase(id, input string) (res isisx.Result) {
 				fail("own-seq-not-above-received-copy", fmt.Sprintf("%s: the own LSP was originated with sequence number %d although a copy with %d had been received", evname, oa.seq, maxOwnCopy))
 			}
 		}
-		if cnt < cntBefore {
+		if cnt < cntBefore && strings.ContainsRune("RSX", rune(ev.op)) {
 			maxOwnCopy = -1 // the 32 bit sequence number space was exhausted and restarted: older copies no longer count
+		}
+		// the next origination uses counter+1: the counter may never be below a received copy of the own LSP
+		if maxOwnCopy >= 0 && cnt < maxOwnCopy {
+			fail("sequence-counter-below-received-own-copy", fmt.Sprintf("%s: the local sequence counter is %d although a copy of the own LSP with %d was received: the next LSP would not supersede it", evname, cnt, maxOwnCopy))
 		}
 		// the local LSP is refreshed before it expires (whenever the updater is given a chance after each tick)
 		if pend == 1 && ev.op == 'T' {
@@ -665,6 +790,8 @@ func runCase(id, input string) (res isisx.Result) {
 	return
 }
 
+func pick(r *hx.RNG) int { return idPool[r.Intn(len(idPool))] }
+
 func genEntries(r *hx.RNG, maxN int) string {
 	n := r.Intn(maxN + 1)
 	if n == 0 {
@@ -672,9 +799,17 @@ func genEntries(r *hx.RNG, maxN int) string {
 	}
 	var p []string
 	for j := 0; j < n; j++ {
-		p = append(p, fmt.Sprintf("%d.%d.%d", r.Intn(nIDs), 1+r.Intn(4), 1+r.Intn(6)))
+		p = append(p, fmt.Sprintf("%d.%d.%d", pick(r), 1+r.Intn(4), 1+r.Intn(6)))
 	}
-	return strings.Join(p, ",")
+	out := p[0]
+	for _, x := range p[1:] {
+		if r.Chance(25) {
+			out += "|" + x // next LSP entries TLV
+		} else {
+			out += "," + x
+		}
+	}
+	return out
 }
 
 func gen(r *hx.RNG, tr *hx.Trace) string {
@@ -701,16 +836,21 @@ func gen(r *hx.RNG, tr *hx.Trace) string {
 			if r.Chance(10) {
 				lt = 1200
 			}
-			toks = append(toks, fmt.Sprintf("L%d:%d:%d:%d", ifi, r.Intn(nIDs), seq, lt))
+			toks = append(toks, fmt.Sprintf("L%d:%d:%d:%d", ifi, pick(r), seq, lt))
 			tr.Count("lsp")
 		case c < 52:
 			lo, hi := "a", "z"
 			if r.Chance(40) {
-				x, y := r.Intn(nIDs), r.Intn(nIDs)
+				x, y := pick(r), pick(r)
 				if x > y {
 					x, y = y, x
 				}
 				lo, hi = strconv.Itoa(x), strconv.Itoa(y)
+				if r.Chance(30) {
+					lo = "a"
+				} else if r.Chance(30) {
+					hi = "z"
+				}
 			}
 			toks = append(toks, fmt.Sprintf("C%d:%s-%s:%s", ifi, lo, hi, genEntries(r, 4)))
 			tr.Count("csnp")
@@ -729,12 +869,15 @@ func gen(r *hx.RNG, tr *hx.Trace) string {
 		case c < 92:
 			toks = append(toks, "R")
 			tr.Count("regen")
-		case c < 96:
+		case c < 95:
 			toks = append(toks, "Q")
 			tr.Count("send_lsps")
-		default:
+		case c < 98:
 			toks = append(toks, "A")
 			tr.Count("send_psnps")
+		default:
+			toks = append(toks, "B")
+			tr.Count("send_csnps")
 		}
 	}
 	return strings.Join(toks, " ")
